@@ -169,6 +169,22 @@ def worker_loop(
                 except Exception as e:
                     # Log any error during processing without crashing the loop
                     worker_logger.exception(f"Worker failed job {job_id}: {e}")
+                    # Report the failure so that the master can complete the job's
+                    # Future exceptionally instead of leaving callers waiting forever.
+                    try:
+                        error_ctx = ContextType()
+                        error_ctx.set_value("job_id", job_id)
+                        transport.publish(
+                            f"jobs.{job_id}.status",
+                            data=None,
+                            context=error_ctx,
+                            metadata={"status": "error", "error": e},
+                            require_ack=False,
+                        )
+                    except Exception:
+                        worker_logger.exception(
+                            f"Worker could not report failure of job {job_id}"
+                        )
 
             # Close this subscription before the next polling iteration
             sub.close()
